@@ -3,6 +3,7 @@
 //! Every exploration drives the real implementation from /repo (built with --cfg probminhash_verif).
 
 mod common;
+mod dens;
 mod props;
 mod script;
 
